@@ -42,6 +42,7 @@ func runC01(c *report.Ctx) {
 	checkReplySinkGuards(c)
 	c.Clause("6 one outcome per invocation: answer after reset, stale DONE cleared")
 	checkInvokeRefusalPath(c)
+	checkOversize(c) // a response is either delivered whole or refused as too large, never cut
 }
 
 func checkRendererConstruction(c *report.Ctx) {
